@@ -83,7 +83,19 @@ func (bugResolver) Operations(_ context.Context, obj models.BugWrapper, after *s
 		return nil, err
 	}
 
-	return connections.OperationCon(ops, edger, conMaker, input)
+	// The schema only has a type for the operations that change the visible state of a bug. The others
+	// (set-metadata as written by the bridges, no-op) can't be rendered and made the whole request fail:
+	// they are left out of the list, before the pagination so that counts, cursors and flags stay consistent.
+	listed := make([]dag.Operation, 0, len(ops))
+	for _, op := range ops {
+		switch op.(type) {
+		case *bug.CreateOperation, *bug.SetTitleOperation, *bug.AddCommentOperation,
+			*bug.EditCommentOperation, *bug.SetStatusOperation, *bug.LabelChangeOperation:
+			listed = append(listed, op)
+		}
+	}
+
+	return connections.OperationCon(listed, edger, conMaker, input)
 }
 
 func (bugResolver) Timeline(_ context.Context, obj models.BugWrapper, after *string, before *string, first *int, last *int) (*models.TimelineItemConnection, error) {
